@@ -30,7 +30,17 @@ RULE = ("Sub-checks point_to_point / vertex_set / border: one query per case on 
         "float / int or numpy uint8, int8, int16, uint16, int32, int64, float32, float64 scalars (integer kinds use the full "
         "range of the type, so distances exceed it); config.sort_neighborhoods and display_duplicate_attribute_warning on/off. "
         "1 case in 100 uses a jittered grid / lattice of more than "
-        "1000 vertices. Meshes: polylines (paths, cycles, trees, random simple graphs, lattice graphs with "
+        "1000 vertices (paths of a few dozen vertices), and 1 case in 300 of every sub-check a LONG mesh whose shortest paths have more than "
+        "1000 vertices (deeper than any recursion limit): open chain with dead-end branches, cycle, two-row strip, capped tube of 1100-1300 "
+        "rings whose only border is the far ring (so that the path to the border is long in every weight mode), helix of 3000 tets; relabelled "
+        "identity / reversed / stride / shuffled; start mostly at an extremity and targets in the farthest tenth (classes "
+        "'shortest-path-vertices>1000' ...). Sub-check huge_paths (size regime of the path and of the target collection; a recipe that fn "
+        "realises): chain of 131100 / 100010 / 65600 / 32800 path vertices, cycle (65600 / 32800 to the antipode), strip (32800 / 11000), "
+        "tube with a border query (11000 / 3500 rings), tet helix (32800 tets, with caller weights favouring the spine the path visits all "
+        "32803 vertices), and a broom whose 100010 / 65600 / 32800 leaves are all requested in one shortest_path call and given as the vertex "
+        "set; on each mesh one point-to-point, one multi-member set, one single-member set (and one border) query between the two extremities, "
+        "random weight modes / target forms / export, judged like a history. The simplest example, which every quick run evaluates, is the "
+        "131100-vertex chain (above 2**17, 1e5 and 2**16 at once); quick adds one random recipe, thorough two per shard. Meshes: polylines (paths, cycles, trees, random simple graphs, lattice graphs with "
         "integer coordinates, wheels/ladders; optional second component and isolated vertices; random relabelling and edge "
         "orientation), surfaces (vlib.gen_surface.surfaces, <=40 faces, incl. disjoint unions, tori, polygons; Delaunay disks "
         "<=30 points; for border queries closed surfaces are mostly punctured by removing 1-2 faces so that the start can be "
@@ -43,7 +53,9 @@ RULE = ("Sub-checks point_to_point / vertex_set / border: one query per case on 
         "'one', dict, sparse Attribute (all written / only non-zeros written / non-zero default with only the other values written) and dense Attribute, with values from {0..3}, "
         "zero-heavy, all-zero, all-equal, dyadic, uniform floats and 6 decades wide, optionally scaled by 1e-6 .. 1e-15 or 1e6 .. 1e12 (dict insertion order "
         "shuffled); "
-        "export_path_mesh on/off/omitted. Oracle: Bellman-Ford distances from the case's own edge list. non-trivial = some "
+        "export_path_mesh on/off/omitted. Oracle: Bellman-Ford distances from the case's own edge list (meshes of more than 1000 vertices: "
+        "a binary-heap Dijkstra on the same edge list and bridge finding by depth-first search for the non-triviality predicate, both "
+        "cross-checked against the plain versions in the self-test). non-trivial = some "
         "requested target (some nearest border vertex) of some query is joined to the start by >= 2 distinct simple paths; "
         "distinct = distinct realised cases.")
 ASSUMPTIONS = ["graphs are simple (no loops, no parallel edges); surfaces / tet meshes are manifold as produced by the shared generators",
@@ -56,6 +68,8 @@ ASSUMPTIONS = ["graphs are simple (no loops, no parallel edges); surfaces / tet 
                "tolerance 1e-9 relative, except 1e-5 where the caller's own data is float32 (float32 coordinates with 'length', "
                "float32 scalars in a weight dict); fixed-width numpy integer weights are non-negative values of that type and the "
                "minimum is taken over exact sums (no wrap-around)",
+               "no size is special: a shortest path may have more than 10**5 vertices and a target collection more than 10**5 members "
+               "(no single-precision data on the long meshes: summing thousands of float32 terms is not covered by the 1e-5 tolerance)",
                "a caller may catch an exception raised by a query with a faulty argument and go on querying",
                "edge / vertex attributes stored on the mesh under any name (e.g. 'length') are not inputs of a query: "
                "weights='length' means the Euclidean length of the edges at the time of the call",
@@ -185,8 +199,12 @@ def punctured(draw, s):
 @st.composite
 def meshes(draw, kinds=("polyline", "polyline", "surface", "surface", "volume")):
     kind = draw(st.sampled_from(list(kinds)))
-    if random.Random(draw(st.integers(0, 10 ** 6))).random() < 0.012 and kind != "volume":   # (integer draws are biased to 0)
-        return large_mesh(draw(st.integers(0, 10 ** 6)), "polyline" if kind == "polyline" else "surface")
+    r = random.Random(draw(st.integers(0, 10 ** 6))).random()          # (integer draws are biased to 0)
+    what = "polyline" if kind == "polyline" else "volume" if kind == "volume" else "surface"
+    if r < P_LONG:
+        return long_regular_mesh(draw(st.integers(0, 10 ** 6)), what)
+    if r < P_LONG + 0.012 and kind != "volume":
+        return large_mesh(draw(st.integers(0, 10 ** 6)), what)
     if kind == "polyline":
         return draw(polylines())
     if kind in ("surface", "border-surface"):
@@ -202,8 +220,21 @@ def meshes(draw, kinds=("polyline", "polyline", "surface", "surface", "volume"))
     return {"kind": "volume", "V": t["V"], "C": t["C"], "tags": t["tags"]}
 
 
+P_LONG = 0.0035      # share of the cases of the four ordinary sub-checks that use a long mesh (each costs about a second)
+
+
+def long_regular_mesh(seed, what):
+    """a LONG mesh (long_mesh): between its extremities every path has more than 1000 vertices (deeper than any recursion limit)"""
+    rnd = random.Random(seed)
+    fam = {"polyline": rnd.choice(["chain", "chain", "cycle"]), "surface": rnd.choice(["tube", "tube", "strip"]), "volume": "tetchain"}[what]
+    L = {"chain": rnd.randint(1150, 2000), "cycle": rnd.randint(1150, 1400), "tube": rnd.randint(1100, 1300), "strip": rnd.randint(1100, 1600),
+         "tetchain": rnd.randint(3050, 3300)}[fam]
+    return long_mesh(rnd, fam, L)[0]
+
+
 def large_mesh(seed, what):
-    """a mesh well above 1000 vertices (any plausible internal size threshold): jittered triangulated / quad grid or lattice polyline"""
+    """a mesh well above 1000 vertices (any plausible internal size threshold): jittered triangulated / quad grid or lattice polyline
+    (their shortest paths have a few dozen vertices)"""
     rnd = random.Random(seed)
     nu, nv = rnd.randint(32, 35), rnd.randint(32, 35)
     idx = lambda i, j: i * nv + j
@@ -226,11 +257,135 @@ def large_mesh(seed, what):
     return {"kind": "surface", "V": V, "F": F, "tags": ["base=large-grid", "bordered", "comps=1", "large"]}
 
 
+def _relabelling(rnd, n, how):
+    """position -> vertex id"""
+    if how == "identity":
+        return list(range(n))
+    if how == "reversed":
+        return list(range(n - 1, -1, -1))
+    if how == "stride":         # neighbours along the mesh get ids that are far apart
+        s = max(2, int(n * 0.381966))
+        while math.gcd(s, n) != 1:
+            s += 1
+        return [(i * s) % n for i in range(n)]
+    perm = list(range(n))
+    rnd.shuffle(perm)
+    return perm
+
+
+def long_mesh(rnd, fam, L, relabel=None):
+    """Meshes whose shortest paths between the two extremities A and B visit about L vertices (size regime of the PATH, not only
+    of the mesh), whatever the weights:
+      chain    open polyline of L vertices + a few short dead-end branches (the path between its ends has exactly L vertices)
+      cycle    closed polyline of 2L-2 vertices (both ways round to the antipode have L vertices)
+      strip    two rows x L columns of quads / triangles (every vertex on the border; an end-to-end path has >= L vertices)
+      tube     L rings of 3 vertices, capped by a triangle at the first ring, open at the last one: the border is the last ring and
+               a path from the cap to the border has >= L vertices in every weight mode
+      tetchain Boerdijk-Coxeter helix of L regular tets, tet i = vertices i..i+3 (an end-to-end path has > L/3 vertices, and L+3
+               vertices under weights that favour the spine edges (i, i+1))
+      broom    a short handle, a hub and L leaves (size regime of the NUMBER OF TARGETS: paths have 2-8 vertices)
+    -> (mesh dict, A, B): A, B = vertex ids near the two extremities (broom: A = handle end, B = the leaves)"""
+    jit = lambda s: rnd.uniform(-s, s)
+    tags = ["large", "long"]
+    if fam in ("chain", "cycle"):
+        if fam == "chain":
+            nb = rnd.randint(0, 6)
+            rr = rnd.random
+            P = [[i + 0.4 * rr() - 0.2, 0.25 * (i % 2), 0.3 * rr()] for i in range(L)]
+            E = [(i, i + 1) for i in range(L - 1)]
+            for j in range(nb):      # dead ends, mostly near the extremities
+                a = rnd.choice([rnd.randrange(L), rnd.randrange(min(L, 8)), L - 1 - rnd.randrange(min(L, 8))])
+                P.append([P[a][0] + jit(0.5), P[a][1] + rnd.uniform(1, 3), P[a][2]])
+                E.append((a, L + j))
+            A, B = list(range(min(4, L))), [L - 1 - j for j in range(min(8, L))]
+        else:
+            n = 2 * L - 2
+            R = n / (2 * math.pi)
+            P = [[R * math.cos(2 * math.pi * i / n), R * math.sin(2 * math.pi * i / n), jit(0.2)] for i in range(n)]
+            E = [(i, (i + 1) % n) for i in range(n)]
+            A, B = [0], [(L - 1 + d) % n for d in (0, -1, 1, -2, 2, -3, 3)]
+        n = len(P)
+        perm = _relabelling(rnd, n, relabel or rnd.choice(["identity", "reversed", "stride", "shuffle"]))
+        V = [None] * n
+        for i in range(n):
+            V[perm[i]] = P[i]
+        E = [[perm[a], perm[b]] if rnd.random() < 0.5 else [perm[b], perm[a]] for a, b in E]
+        if rnd.random() < 0.5:
+            rnd.shuffle(E)
+        mesh = {"kind": "polyline", "V": V, "E": E, "tags": ["shape=long-" + fam, "coords=float"] + tags}
+        return mesh, [perm[a] for a in A], [perm[b] for b in B]
+    if fam == "broom":
+        h = rnd.randint(1, 6)
+        P = [[float(i) + jit(0.2), jit(0.2), 0.0] for i in range(h)]
+        E = [(i, i + 1) for i in range(h - 1)]
+        for j in range(L):
+            t, r = 2 * math.pi * j / L, rnd.uniform(1.0, 2.0)
+            P.append([h - 1 + r * math.cos(t), r * math.sin(t), rnd.uniform(0.5, 1.5)])
+            E.append((h - 1, h + j))
+        E = [[a, b] if rnd.random() < 0.5 else [b, a] for a, b in E]
+        if rnd.random() < 0.5:
+            rnd.shuffle(E)
+        mesh = {"kind": "polyline", "V": P, "E": E, "tags": ["shape=broom", "coords=float", "large", "many-targets"]}
+        return mesh, [0], list(range(h, h + L))
+    if fam in ("strip", "tube"):
+        if fam == "strip":
+            P = [[i + jit(0.2), float(r) + jit(0.2), rnd.uniform(0, 0.3)] for i in range(L) for r in range(2)]
+            Q = [[2 * i, 2 * i + 2, 2 * i + 3, 2 * i + 1] for i in range(L - 1)]
+            F = []
+            A, B = [0, 1], [2 * L - 1, 2 * L - 2]
+        else:
+            P = [[j + jit(0.2), 0.4 * math.cos(2 * math.pi * a / 3 + 0.1 * j), 0.4 * math.sin(2 * math.pi * a / 3 + 0.1 * j)] for j in range(L) for a in range(3)]
+            Q = [[3 * j + a, 3 * j + (a + 1) % 3, 3 * (j + 1) + (a + 1) % 3, 3 * (j + 1) + a] for j in range(L - 1) for a in range(3)]
+            F = [[0, 2, 1]]                    # the cap (orientation consistent with the quads)
+            A, B = [0, 1, 2], [3 * L - 1, 3 * L - 2, 3 * L - 3]
+        style = rnd.choice(["quads", "triangles", "mixed"])
+        for q in Q:
+            if style == "quads" or (style == "mixed" and rnd.random() < 0.5):
+                F.append(q)
+            elif rnd.random() < 0.5:
+                F += [[q[0], q[1], q[2]], [q[0], q[2], q[3]]]
+            else:
+                F += [[q[0], q[1], q[3]], [q[1], q[2], q[3]]]
+        n = len(P)
+        perm = _relabelling(rnd, n, relabel or rnd.choice(["identity", "identity", "reversed", "stride"]))
+        V = [None] * n
+        for i in range(n):
+            V[perm[i]] = P[i]
+        F = [[perm[v] for v in f] for f in F]
+        if rnd.random() < 0.3:
+            rnd.shuffle(F)
+        mesh = {"kind": "surface", "V": V, "F": F, "tags": ["base=long-" + fam, "bordered", "comps=1"] + tags}
+        return mesh, [perm[a] for a in A], [perm[b] for b in B]
+    if fam == "tetchain":
+        nt = L
+        th, r, h = math.acos(-2.0 / 3.0), 3 * math.sqrt(3) / 10, 1 / math.sqrt(10)
+        V = [[r * math.cos(i * th), r * math.sin(i * th), i * h] for i in range(nt + 3)]
+        C = []
+        for i in range(nt):
+            c = [i, i + 1, i + 2, i + 3]
+            pa, pb, pc, pd = (V[v] for v in c)
+            u, v, w = ([pa[k] - pd[k] for k in range(3)], [pb[k] - pd[k] for k in range(3)], [pc[k] - pd[k] for k in range(3)])
+            det = (u[0] * (v[1] * w[2] - v[2] * w[1]) - u[1] * (v[0] * w[2] - v[2] * w[0]) + u[2] * (v[0] * w[1] - v[1] * w[0]))
+            if det < 0:
+                c[0], c[1] = c[1], c[0]
+            C.append(c)
+        mesh = {"kind": "volume", "V": V, "C": C, "tags": ["base=long-tetchain", "comps=1"] + tags}
+        return mesh, [0, 1], [nt + 2, nt + 1]
+    raise AssertionError(fam)
+
+
+def ekey(e):
+    """vlib.topo.key for a vertex pair (without the generic sort: there are millions of calls on the huge meshes)"""
+    a, b = e
+    a, b = int(a), int(b)
+    return (a, b) if a < b else (b, a)
+
+
 def ref_edges(case):
     """sorted list of vertex-pair keys of the mesh's 1-skeleton, from the case alone"""
     k = case["kind"]
     if k == "polyline":
-        return sorted(key(e) for e in case["E"])
+        return sorted(ekey(e) for e in case["E"])
     if k == "surface":
         return sorted(SurfRef(len(case["V"]), case["F"]).uedges)
     return sorted(TetRef(len(case["V"]), case["C"]).ekeys)
@@ -263,8 +418,37 @@ WMODES = ["omitted", "length", "length", "one", "one", "dict", "dict", "dict", "
 # no absolute magnitude is special: a nanometre object in metres (1e-9..1e-12) or caller costs in tiny / huge units are in the domain
 SCALES = [1.0, 1.0, 1.0, 1.0, 1e-3, 1e-6, 1e-9, 1e-12, 1e3, 1e6, 1e9, 1e12]
 WSCALES = [1.0, 1.0, 1.0, 1.0, 1.0, 1e-6, 1e-9, 1e-12, 1e-15, 1e6, 1e9, 1e12]
+STRETCH = [None, None, None, None, None, [1.0, 1.0, 8.0], [6.0, 1.0, 1.0], [1.0, 5.0, 1.0], [3.0, 1.0, 9.0]]     # integer factors: integral coordinates stay integral
 DECOYS = [None, None, None, "edge_length-then-moved", "edge_length-then-moved", "user-length", "many-names"]
 ANISO = [[1.0, 3.0, 0.25], [4.0, 1.0, 1.0], [0.2, 1.0, 5.0], [1.0, 1.0, 7.0], [2.5, 0.4, 1.0]]
+
+
+def best_among_optimal(n, adj, wcur, walt, start):
+    """{v: the smallest wcur-weight of a path from start to v that is OPTIMAL for the weights walt} (walt > 0), or None"""
+    if not walt or min(walt.values()) <= 0:
+        return None
+    dalt = RG.bellman_ford(n, [(a, b, w) for (a, b), w in walt.items()], start)
+    order = sorted((v for v in range(n) if dalt[v] < math.inf), key=dalt.__getitem__)
+    scale_alt = max(max(walt.values()), max(dalt[v] for v in order))
+    best = {start: 0.0}
+    for v in order:
+        if v == start:
+            continue
+        c = [best[u] + wcur[(u, v) if u < v else (v, u)] for u in adj[v]
+             if u in best and abs(dalt[u] + walt[(u, v) if u < v else (v, u)] - dalt[v]) <= 1e-9 * scale_alt]
+        if c:
+            best[v] = min(c)
+    return best
+
+
+def differs_under(n, adj, wcur, walt, start, targets, dcur):
+    """evidence only: is there a target for which EVERY optimal path for the weights walt is worse than optimal for the weights
+    wcur? (then an implementation that confused the two weight modes would be noticed on this query)"""
+    best = best_among_optimal(n, adj, wcur, walt, start)
+    if best is None:
+        return False
+    scale = max([abs(dcur[t]) for t in targets] + list(wcur.values()) + [0.0])
+    return any(t in best and best[t] > dcur[t] + 1e-6 * scale for t in targets)
 
 
 class GraphInfo:
@@ -272,6 +456,8 @@ class GraphInfo:
 
     def __init__(self, case):
         self.n = len(case["V"])
+        self.long = "long" in case.get("tags", [])
+        self.V = case["V"]
         self.E = ref_edges(case)
         self.lab = RG.component_labels(self.n, self.E)
         self.deg = [0] * self.n
@@ -290,6 +476,16 @@ class GraphInfo:
             self._hops[v] = RG.bfs_hops(self.n, self.E, v)
         return self._hops[v]
 
+    def mode_sensitive(self, start):
+        """the vertices for which every Euclidean shortest path from start has more edges than the fewest-edges path: there
+        the weight modes 'one' / uniform caller weights and 'length' have different answers"""
+        if self.n > 300 or not self.E:
+            return []
+        one = {k: 1.0 for k in self.E}
+        best = best_among_optimal(self.n, RG.adjacency_lists(self.n, self.E), one, {(a, b): dist3(self.V[a], self.V[b]) for a, b in self.E}, start)
+        h = self.hops(start)
+        return [] if best is None else [t for t in sorted(best) if h[t] is not None and best[t] > h[t]]
+
 
 def scale_mesh(draw, mesh):
     """uniform scaling of the coordinates (the property is scale covariant for 'length', invariant otherwise), then a
@@ -297,6 +493,12 @@ def scale_mesh(draw, mesh):
     stored coordinates, and |a-b| of two stored points is accurate to eps whatever the offset, so no tolerance changes)"""
     f = draw(st.sampled_from(SCALES))
     mesh = dict(mesh)
+    ax = draw(st.sampled_from(STRETCH))
+    if ax and "large" not in mesh["tags"]:
+        # the property holds for any geometry: on a stretched mesh the fewest-edges path, the Euclidean shortest path and the optimum
+        # for the caller's weights mostly differ, so that a confusion between the weight modes shows
+        mesh["V"] = [[v[c] * ax[c] for c in range(3)] for v in mesh["V"]]
+        mesh["tags"] = list(mesh["tags"]) + ["stretched"]
     if f != 1.0:
         mesh["V"] = [[x * f for x in v] for v in mesh["V"]]
     k = draw(st.sampled_from(OFFSETS))
@@ -320,8 +522,11 @@ def draw_forms(draw, case):
     case["rowform"] = draw(st.sampled_from(ROWFORMS))
     case["intcoords"] = draw(st.booleans())
     case["dvtype"] = draw(st.sampled_from(DVTYPES))
+    long = "long" in case.get("tags", [])
+    if long and case["dvtype"] == "float32":
+        case["dvtype"] = None        # (no single precision data on paths of thousands of edges: see ASSUMPTIONS on the tolerance)
     case["cfg"] = {"sort": draw(st.booleans()), "dupwarn": draw(st.booleans())}
-    if draw(st.sampled_from([False] * 7 + [True])):
+    if draw(st.sampled_from([False] * 7 + [True])) and not long:
         mx = max([abs(x) for v in case["V"] for x in v] + [0.0])
         if mx < 1e15 and all(x == 0.0 or abs(x) > 1e-15 for v in case["V"] for x in v):
             # low precision point array: the coordinates ARE the float32 values
@@ -359,6 +564,11 @@ def gen_border_start(draw, rnd, G):
 
 
 def gen_start(draw, rnd, G):
+    if G.long and G.nonisolated and rnd.random() < 0.85:
+        # long meshes: an extremity (the vertices farthest, in hops, from a random vertex), so that paths of > 1000 vertices are frequent
+        h = G.hops(rnd.choice(G.nonisolated))
+        mx = max(x for x in h if x is not None)
+        return rnd.choice([v for v in range(G.n) if h[v] is not None and h[v] >= mx - 2])
     if G.nonisolated and draw(st.integers(0, 11)) != 0:
         return rnd.choice(G.nonisolated)
     return rnd.randrange(G.n)
@@ -371,13 +581,28 @@ def gen_targets(draw, rnd, G, entry, start, avoid=()):
     comp = [v for v in range(G.n) if G.lab[v] == G.lab[start]]
     others = [v for v in range(G.n) if G.lab[v] != G.lab[start]]
     notstart = [v for v in comp if v != start] or comp
+    if G.long:
+        if rnd.random() < 0.85:      # mostly targets in the farthest tenth
+            h = G.hops(start)
+            mx = max(h[v] for v in comp)
+            notstart = [v for v in notstart if h[v] >= 0.9 * mx] or notstart
+        if len(comp) > 300:          # 'whole-component' on a long mesh: a sample (every path has hundreds of vertices)
+            comp = rnd.sample(comp, 300)
     if entry == "p2p":
         tform = draw(st.sampled_from(["int", "int", "list", "list", "set", "tuple", "array", "iter"]))
-        style = draw(st.sampled_from(["few", "few", "few", "one", "one", "with-start", "whole-component"]))
+        style = draw(st.sampled_from(["few", "few", "few", "one", "one", "with-start", "whole-component", "mode-sensitive", "mode-sensitive"]))
     else:
         tform = draw(st.sampled_from(["list", "list", "list", "set", "set", "tuple", "array", "iter"]))
-        style = draw(st.sampled_from(["few", "few", "few", "one", "one", "with-start", "unreachable-extra", "whole-component"]
+        style = draw(st.sampled_from(["few", "few", "few", "one", "one", "with-start", "unreachable-extra", "whole-component", "mode-sensitive", "mode-sensitive"]
                                      + (["far", "far", "far", "far"] if avoid else [])))
+    if style == "mode-sensitive":
+        # targets for which the weight modes disagree (if there are any): a confusion between the modes shows there
+        ms = [v for v in G.mode_sensitive(start) if v != start]
+        if ms:
+            notstart = ms
+            style = rnd.choice(["one", "few"])
+        else:
+            style = "few"
     if tform == "int" or style == "one":
         targets = [rnd.choice(notstart if rnd.random() < 0.9 else comp)]
     elif style == "whole-component":
@@ -570,12 +795,115 @@ def weight_class(wmode, wtab):
 
 
 def is_intlike(x):
+    if type(x) is int:
+        return True
     import numpy as np
     return (isinstance(x, int) and not isinstance(x, bool)) or isinstance(x, np.integer)
 
 
 def dist3(p, q):
     return math.sqrt(math.fsum((float(a) - float(b)) ** 2 for a, b in zip(p, q)))
+
+
+BIG = 1000        # above this many vertices the reference switches to the O(E log V) algorithms below
+
+
+def dijkstra_ref(n, wedges, src):
+    """same contract as RG.bellman_ford (non-negative weights), with a binary heap: the reference for meshes of more than BIG
+    vertices, where relaxation rounds are quadratic. Cross-checked against bellman_ford in self_test."""
+    import heapq
+    adj = [[] for _ in range(n)]
+    for a, b, w in wedges:
+        if not w >= 0:
+            raise ValueError("reference expects non-negative weights")
+        adj[a].append((b, w)); adj[b].append((a, w))
+    dist = [math.inf] * n
+    dist[src] = 0.0
+    heap = [(0.0, src)]
+    while heap:
+        d, v = heapq.heappop(heap)
+        if d > dist[v]:
+            continue
+        for u, w in adj[v]:
+            if d + w < dist[u]:
+                dist[u] = d + w
+                heapq.heappush(heap, (d + w, u))
+    return dist
+
+
+def ref_distances(n, wedges, src):
+    return RG.bellman_ford(n, wedges, src) if n <= BIG else dijkstra_ref(n, wedges, src)
+
+
+def bridges_of(n, adj):
+    """set of keys of the bridges of a SIMPLE undirected graph (iterative depth-first search, low-link values)"""
+    disc, low, out, t = [-1] * n, [0] * n, set(), 0
+    for r in range(n):
+        if disc[r] != -1:
+            continue
+        disc[r] = low[r] = t; t += 1
+        stack = [(r, -1, 0)]
+        while stack:
+            v, p, i = stack.pop()
+            if i < len(adj[v]):
+                stack.append((v, p, i + 1))
+                w = adj[v][i]
+                if w == p:
+                    continue
+                if disc[w] == -1:
+                    disc[w] = low[w] = t; t += 1
+                    stack.append((w, v, 0))
+                elif disc[w] < low[v]:
+                    low[v] = disc[w]
+            elif p != -1:
+                if low[v] < low[p]:
+                    low[p] = low[v]
+                if low[v] > disc[p]:
+                    out.add((p, v) if p < v else (v, p))
+    return out
+
+
+def two_simple_paths_fast(n, adj, bridges, s, targets):
+    """for each t of targets: are there >= 2 distinct simple paths s..t? (same predicate as RG.has_two_simple_paths: the simple
+    path is unique iff every edge of one s-t path is a bridge) - one breadth-first tree for all targets"""
+    if len(bridges) * 2 == sum(len(a) for a in adj):
+        return {t: False for t in targets}          # a forest
+    par = {s: s}
+    frontier = [s]
+    while frontier:
+        nxt = []
+        for u in frontier:
+            for w in adj[u]:
+                if w not in par:
+                    par[w] = u
+                    nxt.append(w)
+        frontier = nxt
+    res = {}
+    for t in targets:
+        v, found = t, False
+        while v in par and v != s:
+            if ((v, par[v]) if v < par[v] else (par[v], v)) not in bridges:
+                found = True
+                break
+            v = par[v]
+        res[t] = found and t in par
+    return res
+
+
+def abbr(seq, k=12):
+    """rendering of a long id list for messages"""
+    seq = list(seq)
+    if len(seq) <= 2 * k + 4:
+        return repr(seq)
+    return "[" + ", ".join(map(repr, seq[:k])) + f", ... ({len(seq)} entries) ..., " + ", ".join(map(repr, seq[-k:])) + "]"
+
+
+def size_bucket(x):
+    """label of a count in the size regimes that matter for hidden thresholds (None below 1000)"""
+    for name, lim in (("2^17", 2 ** 17), ("1e5", 10 ** 5), ("2^16", 2 ** 16), ("2^15", 2 ** 15), ("1e4", 10 ** 4), ("1000", 1000)):
+        if x > lim:
+            return ">" + name
+    return None
 
 
 def build_mesh(case, V=None):
@@ -626,16 +954,21 @@ def close_w(got, exp, wmax):
     return abs(got - exp) <= TOL[0] * scale
 
 
+def check_lazy(ctx, cond, sig, msg):
+    """ctx.check whose message (a callable) is only rendered on failure (a query may have > 10**5 targets, each with its path)"""
+    return ctx.check(True, sig, "") if cond else ctx.check(False, sig, msg())
+
+
 def check_path(ctx, sig, what, path, start, end, wedges, dref, wmax):
     """path is a list of vertex ids from start to end along edges with total weight dref. Returns weight or None."""
-    if not ctx.check(isinstance(path, (list, tuple)) and len(path) >= 1 and all(is_intlike(v) for v in path), sig + ":shape",
-                     f"{what}: path is not a non-empty list of vertex ids: {path!r}"):
+    if not check_lazy(ctx, isinstance(path, (list, tuple)) and len(path) >= 1 and all(is_intlike(v) for v in path), sig + ":shape",
+                      lambda: f"{what}: path is not a non-empty list of vertex ids: {abbr(path) if isinstance(path, (list, tuple)) else repr(path)[:300]}"):
         return None
     path = [int(v) for v in path]
-    if not ctx.check(path[0] == start, sig + ":start", f"{what}: path {path} does not begin at start {start}"):
+    if not check_lazy(ctx, path[0] == start, sig + ":start", lambda: f"{what}: path {abbr(path)} does not begin at start {start}"):
         return None
     if end is not None:
-        if not ctx.check(path[-1] == end, sig + ":end", f"{what}: path {path} does not end at target {end}"):
+        if not check_lazy(ctx, path[-1] == end, sig + ":end", lambda: f"{what}: path {abbr(path)} does not end at target {end}"):
             return None
     if isinstance(wedges, dict):             # prepared {(a, b): weight}, a < b
         ws, bad = [], None
@@ -648,10 +981,13 @@ def check_path(ctx, sig, what, path, start, end, wedges, dref, wmax):
         w = math.fsum(ws)
     else:
         w, bad = RG.walk_weight(wedges, path)
-    if not ctx.check(bad is None, sig + ":edge", f"{what}: step {bad} of path {path} is not an edge of the mesh"):
+    if not check_lazy(ctx, bad is None, sig + ":edge", lambda: f"{what}: step {bad} of path {abbr(path)} is not an edge of the mesh"):
         return None
-    ctx.check(close_w(w, dref, wmax), sig + ":minimal",
-              f"{what}: path {path} has weight {w!r}, minimum over all edge paths from {start} to {path[-1]} is {dref!r}")
+    if check_lazy(ctx, close_w(w, dref, wmax), sig + ":minimal",
+                  lambda: f"{what}: path {abbr(path)} has weight {w!r}, minimum over all edge paths from {start} to {path[-1]} is {dref!r}"):
+        b = size_bucket(len(path))
+        if b:
+            ctx.label("shortest-path-vertices" + b)
     return w
 
 
@@ -661,21 +997,23 @@ def check_polyline(ctx, sig, pm, paths, V, start):
     if not ctx.check(isinstance(pm, M.mesh.PolyLine), sig + ":type", f"exported path mesh is {type(pm).__name__}, not a PolyLine"):
         return
     try:
-        PV = [tuple(float(x) for x in v) for v in pm.vertices]
-        PE = [tuple(int(x) for x in e) for e in pm.edges]
+        PV = [tuple(map(float, v)) for v in pm.vertices]
+        PE = [tuple(map(int, e)) for e in pm.edges]
     except Exception as e:
         ctx.fail(sig + ":type", f"exported polyline has unreadable vertices/edges: {e!r}")
         return
     if not ctx.check(all(len(p) == 3 for p in PV) and all(len(e) == 2 and e[0] != e[1] and 0 <= min(e) and max(e) < len(PV) for e in PE),
-                     sig + ":index", f"exported polyline has malformed vertices or edge indices: {len(PV)} vertices, edges {PE}"):
+                     sig + ":index", f"exported polyline has malformed vertices or edge indices: {len(PV)} vertices, edges {abbr(PE, 8)}"):
         return
-    co = lambda v: tuple(float(x) for x in V[v])
-    exp_steps = set(frozenset((co(u), co(v))) for p in paths for u, v in zip(p, p[1:]))
-    got_steps = set(frozenset((PV[a], PV[b])) for a, b in PE)
-    exp_pts = set(co(v) for p in paths for v in p)
+    co = lambda v: tuple(V[v])                  # (V = Env.V: lists of Python floats)
+    seg = lambda x, y: (x, y) if x <= y else (y, x)          # an unordered pair of points
+    cpaths = [[co(v) for v in p] for p in paths]
+    exp_steps = set(seg(x, y) for c in cpaths for x, y in zip(c, c[1:]))
+    got_steps = set(seg(PV[a], PV[b]) for a, b in PE)
+    exp_pts = set(x for c in cpaths for x in c)
     n_entries = sum(len(p) for p in paths)
     n_steps = sum(len(p) - 1 for p in paths)
-    desc = f"paths {paths}; polyline has {len(PV)} vertices and edges {PE}"
+    desc = f"paths {abbr([abbr(p, 5) for p in paths], 3)}; polyline has {len(PV)} vertices and edges {abbr(PE, 8)}"
     if not ctx.check(set(PV) == exp_pts, sig + ":coords", f"polyline vertex coordinates are not those of the path vertices. {desc}"):
         return
     if not ctx.check(got_steps == exp_steps, sig + ":edges",
@@ -687,7 +1025,7 @@ def check_polyline(ctx, sig, pm, paths, V, start):
     used = set(x for e in PE for x in e)
     iso = [i for i in range(len(PV)) if i not in used]
     ok_iso = all(PV[i] == co(start) for i in iso) and (not iso or any(len(p) == 1 for p in paths))
-    ctx.check(ok_iso, sig + ":edges", f"polyline vertices {iso} belong to no edge although they are not a one-vertex path. {desc}")
+    ctx.check(ok_iso, sig + ":edges", f"polyline vertices {abbr(iso)} belong to no edge although they are not a one-vertex path. {desc}")
 
 
 class Env:
@@ -707,10 +1045,11 @@ class Env:
         # weights handed over as fixed-width numpy scalars: the tables hold exactly the values such a scalar can carry
         self.dvtype = case.get("dvtype")
         self.tabmax = [max(t + [0.0]) for t in self.tabs]
-        self.tabs = [[self.tabval(i, w) for w in t] for i, t in enumerate(self.tabs)]
+        if self.dvtype in NARROW or self.dvtype == "float32":
+            self.tabs = [[self.tabval(i, w) for w in t] for i, t in enumerate(self.tabs)]
         self.mesh, self.int_coords = build_mesh(case, self.V)
         try:
-            self.medges = [key(e) for e in self.mesh.edges]
+            self.medges = [ekey(e) for e in self.mesh.edges]
         except Exception as e:
             raise AssertionError(f"cannot read mesh.edges: {e!r}")
         self.ok = ctx.check(sorted(self.medges) == self.E, "pre:edge-container",
@@ -722,6 +1061,15 @@ class Env:
         self.moved = False                                         # coordinates re-assigned (as float64 Vec) since construction
         self.history = []                                          # (wclass, kind of query, target members) of earlier queries
         self.nfaces = len(self.mesh.faces) if self.kind == "surface" else None
+        self._bridges = None
+
+    def two_paths(self, s, targets):
+        """is some t of targets joined to s by >= 2 distinct simple paths? (the rule's notion of a non-trivial query)"""
+        if self.n <= BIG:
+            return any(RG.has_two_simple_paths(self.n, self.E, s, t) for t in targets)
+        if self._bridges is None:
+            self._bridges = bridges_of(self.n, self.adj)
+        return any(two_simple_paths_fast(self.n, self.adj, self._bridges, s, targets).values())
 
     # ---- weights
     def tabval(self, tab, w):
@@ -769,11 +1117,17 @@ class Env:
         elif wmode == "attr_default":
             # sparse attribute with a non-zero default: only the entries that differ from the most frequent weight are written
             vals = [self.wvalue(tab, k) for k in self.medges]
-            dflt = max(sorted(set(vals)), key=vals.count) if vals else 1.0
+            cnt = {}
+            for x in vals:
+                cnt[x] = cnt.get(x, 0) + 1
+            top = max(cnt.values()) if vals else 0
+            dflt = min(x for x in cnt if cnt[x] == top) if vals else 1.0      # the smallest of the most frequent values
             arg = self.mesh.edges.create_attribute(f"c09_w{tab}_{wmode}", float, dense=False, default_value=float(dflt))
             for i, k in enumerate(self.medges):
                 if self.wvalue(tab, k) != dflt:
                     arg[i] = float(self.wvalue(tab, k))
+            if vals and top == len(vals):
+                self.ctx.label("sparse-attribute-with-no-value-written(default=%s)" % ("0" if dflt == 0 else "c"))
         else:
             arg = self.mesh.edges.create_attribute(f"c09_w{tab}_{wmode}", float, dense=(wmode == "attr_dense"))
             for i, k in enumerate(self.medges):
@@ -786,12 +1140,12 @@ class Env:
     def ref_weights(self, wmode, tab):
         wclass = weight_class(wmode, tab)
         if wclass == "one":
-            w = {k: 1.0 for k in self.E}
-        elif wclass == "length":
-            w = {k: dist3(self.V[k[0]], self.V[k[1]]) for k in self.E}
-        else:
-            w = {k: self.wvalue(tab, k) for k in self.E}
-        return [(a, b, w[(a, b)]) for (a, b) in self.E]
+            return [(a, b, 1.0) for (a, b) in self.E]
+        if wclass == "length":
+            d3 = dist3 if self.n <= BIG else math.dist       # (math.dist: the same quantity to within an ulp, computed in C)
+            V = self.V
+            return [(a, b, d3(V[a], V[b])) for (a, b) in self.E]
+        return [(a, b, w) for (a, b), w in zip(self.E, self.tabs[tab])]      # table entries are in the order of E (see kidx)
 
     # ---- edits between queries
     def set_vertices(self, updates):
@@ -864,12 +1218,18 @@ class Env:
         ctx = self.ctx
         ctx.check(self.read_cfg() == self.cfg, sig + ":config-changed", f"{what}: the call left mouette.config changed: {self.read_cfg()} (was {self.cfg})")
         try:
-            mv = [[float(x) for x in v] for v in self.mesh.vertices]
-            me = [key(e) for e in self.mesh.edges]
+            if self.n <= BIG:
+                mv = [[float(x) for x in v] for v in self.mesh.vertices]
+                same_v = mv == self.V
+            else:                    # the same comparison through numpy (hundreds of thousands of vertices)
+                import numpy as np
+                mv = np.array([v for v in self.mesh.vertices], dtype=float)
+                same_v = mv.shape == (self.n, 3) and bool(np.array_equal(mv, np.array(self.V, dtype=float).reshape(-1, 3)))
+            me = [ekey(e) for e in self.mesh.edges]
         except Exception as e:
             ctx.fail(sig + ":mesh-changed", f"{what}: mesh unreadable after the query: {e!r}")
             return False
-        ok = ctx.check(mv == self.V and me == self.medges and (self.nfaces is None or len(self.mesh.faces) == self.nfaces),
+        ok = ctx.check(same_v and me == self.medges and (self.nfaces is None or len(self.mesh.faces) == self.nfaces),
                        sig + ":mesh-changed", f"{what}: the query modified the mesh (vertices {len(mv)}/{self.n}, edges {len(me)}/{len(self.medges)})")
         for (tab, wmode), arg in self.wargs.items():
             if wmode == "dict":
@@ -928,9 +1288,9 @@ def scramble(x, depth=0):
             scramble(v, depth + 1)
     elif isinstance(x, M.mesh.PolyLine):
         # rebinding entries of the polyline's own containers (never an in-place edit of a coordinate vector)
-        for i in range(len(x.vertices)):
+        for i in range(min(len(x.vertices), 3000)):
             x.vertices[i] = M.Vec(1e30, -1e30, 0.5)
-        for i in range(len(x.edges)):
+        for i in range(min(len(x.edges), 3000)):
             x.edges[i] = (0, 0)
 
 
@@ -959,7 +1319,7 @@ def _run_query(env, q, ctx, where, out):
     warg = env.weight_arg(wmode, tab)
     wedges = env.ref_weights(wmode, tab)
     wmax = max([w for _, _, w in wedges] + [0.0])
-    dist = RG.bellman_ford(n, wedges, start)
+    dist = ref_distances(n, wedges, start)
     wref = {(a, b): w for a, b, w in wedges}
     # 1e-9 everywhere, except where the caller's own data is single precision (float32 coordinates for 'length', float32
     # scalars in the weight dict): accumulating such data in single precision is legitimate, 1e-5 then
@@ -979,6 +1339,12 @@ def _run_query(env, q, ctx, where, out):
             ctx.label("length-query-on-mesh-carrying-a-" + st_len + "-'length'-attribute")
     if wmax > 0:
         ctx.label("weight-magnitude=1e%+03d" % (3 * int(math.floor(math.log10(wmax) / 3.0))))
+    if n <= 300 and E and (wc != "custom" or len(set(w for _, _, w in wedges)) == 1):
+        # (evidence for the modes that can be mistaken for each other silently: 'one' / uniform caller weights / 'length')
+        tg = [t for t in (targets if entry != "border" else env.bv) if lab[t] == lab[start]]
+        for alt in ("one", "length"):
+            if alt != wc and tg and differs_under(n, env.adj, wref, {(a, b): w for a, b, w in env.ref_weights(alt, 0)}, start, tg, dist):
+                ctx.label(f"a-confusion-of-weights={wc}-with-{alt}-would-show")
 
     args, kwargs = [], {}
     if warg is not None:
@@ -1012,15 +1378,17 @@ def _run_query(env, q, ctx, where, out):
         if start in tset: ctx.label("start-among-targets")
         if len(targets) != len(tset): ctx.label("duplicate-targets")
         if any(t != start and tie_at(t) for t in tset): ctx.label("tie")
-        ctx.nontrivial(any(RG.has_two_simple_paths(n, E, start, t) for t in tset))
+        b = size_bucket(len(tset))
+        if b: ctx.label("targets" + b)
+        ctx.nontrivial(env.two_paths(start, tset))
         sig = f"p2p/{wc}"
-        what = f"{where}start {start}, targets {tset} given as {tform}"
+        what = f"{where}start {start}, targets {abbr(tset)} given as {tform}"
         ok, res = ctx.call(sig, LP.shortest_path, mesh, s_arg, targ, *args, **kwargs)
         env.history.append((wclass, "p2p", set(tset)))
         if not ok:
             return False
         out.append(res)
-        ctx.check(targ_unchanged(), sig + ":targets-changed", f"{what}: the targets argument was modified by the call: {targ!r}")
+        ctx.check(targ_unchanged(), sig + ":targets-changed", f"{what}: the targets argument was modified by the call: {repr(targ)[:400]}")
         env.check_unchanged(sig, what)
         pm = None
         if want_mesh:
@@ -1031,7 +1399,7 @@ def _run_query(env, q, ctx, where, out):
             return False
         keys = list(res.keys())
         if not ctx.check(all(is_intlike(k) for k in keys) and sorted(int(k) for k in keys) == tset, sig + ":keys",
-                         f"{what}: result keys {keys!r} are not the requested targets {tset}"):
+                         f"{what}: result keys {abbr(keys)} are not the requested targets {abbr(tset)}"):
             return False
         paths = []
         for t in tset:
@@ -1057,15 +1425,17 @@ def _run_query(env, q, ctx, where, out):
         if sum(1 for t in reach if close_w(dist[t], dmin, wmax)) >= 2: ctx.label("several-nearest-members")
         if any(t != start and tie_at(t) for t in reach): ctx.label("tie")
         if stale_winner(set(tset), dmin): ctx.label("hist:earlier-target-at-least-as-near(same-weights)")
-        ctx.nontrivial(any(RG.has_two_simple_paths(n, E, start, t) for t in reach))
+        b = size_bucket(len(tset))
+        if b: ctx.label("targets" + b)
+        ctx.nontrivial(env.two_paths(start, reach))
         sig = f"set/{wc}/{'single' if len(targets) == 1 else 'multi'}"
-        what = f"{where}start {start}, set {tset} given as {tform}"
+        what = f"{where}start {start}, set {abbr(tset)} given as {tform}"
         ok, res = ctx.call(sig, LP.shortest_path_to_vertex_set, mesh, s_arg, targ, *args, **kwargs)
         env.history.append((wclass, "set", set(tset)))
         if not ok:
             return False
         out.append(res)
-        ctx.check(targ_unchanged(), sig + ":targets-changed", f"{what}: the targets argument was modified by the call: {targ!r}")
+        ctx.check(targ_unchanged(), sig + ":targets-changed", f"{what}: the targets argument was modified by the call: {repr(targ)[:400]}")
         env.check_unchanged(sig, what)
         nret = 3 if want_mesh else 2
         if not ctx.check(isinstance(res, tuple) and len(res) == nret, sig + ":return",
@@ -1077,7 +1447,7 @@ def _run_query(env, q, ctx, where, out):
         ind = int(ind)
         if not ctx.check(close_w(dist[ind], dmin, wmax), sig + ":nearest",
                          f"{what}: returned member {ind} is at distance {dist[ind]!r} from {start}, but the nearest member is at {dmin!r} "
-                         f"(distances {[(t, dist[t]) for t in tset]})"):
+                         f"(distances {abbr([(t, dist[t]) for t in tset], 6)})"):
             return False
         w = check_path(ctx, sig, f"{what}, returned member {ind}", path, start, ind, wref, dist[ind], wmax)
         if w is None:
@@ -1116,7 +1486,7 @@ def _run_query(env, q, ctx, where, out):
         if min(hops[t] for t in nearest) > min(hops[t] for t in reach):
             ctx.label("nearest-border-vertex-is-not-nearest-in-hops")
         if stale_winner(set(bv), dmin): ctx.label("hist:earlier-target-at-least-as-near(same-weights)")
-        ctx.nontrivial(any(RG.has_two_simple_paths(n, E, start, t) for t in nearest))
+        ctx.nontrivial(env.two_paths(start, nearest))
         ok, res = ctx.call(sig, LP.shortest_path_to_border, mesh, s_arg, *args, **kwargs)
         env.history.append((wclass, "border", set(bv)))
         if not ok:
@@ -1130,10 +1500,10 @@ def _run_query(env, q, ctx, where, out):
             res, pm = res
         path = res
         if not ctx.check(isinstance(path, (list, tuple)) and len(path) >= 1 and all(is_intlike(v) for v in path), sig + ":shape",
-                         f"{what}: path is not a non-empty list of vertex ids: {path!r}"):
+                         f"{what}: path is not a non-empty list of vertex ids: {abbr(path) if isinstance(path, (list, tuple)) else repr(path)[:300]}"):
             return False
         end = int(path[-1])
-        if not ctx.check(end in bv, sig + ":member", f"{what}: path {list(path)} does not end on the border {bv}"):
+        if not ctx.check(end in bv, sig + ":member", f"{what}: path {abbr(path)} does not end on the border {abbr(bv)}"):
             return False
         if not ctx.check(close_w(dist[end], dmin, wmax), sig + ":nearest",
                          f"{what}: path ends at border vertex {end} at distance {dist[end]!r}, the nearest border vertex is at {dmin!r}"):
@@ -1184,7 +1554,7 @@ def run_bad(env, b, ctx):
 
 def label_mesh(case, env, ctx):
     for t in case.get("tags", []):
-        if t.startswith(("base=", "shape=", "comps=", "closed", "bordered", "second-component", "isolated", "coords=", "scale=", "offset/size=", "large")):
+        if t.startswith(("base=", "shape=", "comps=", "closed", "bordered", "second-component", "isolated", "coords=", "scale=", "offset/size=", "large", "long", "stretched")):
             ctx.label(t)
     ctx.label("kind=" + case["kind"], "ids=" + case.get("idform", "int"), "rows=" + case.get("rowform", "list"),
               "coords=" + ("int64" if env.int_coords else case.get("coordtype", "float64")))
@@ -1287,6 +1657,110 @@ def fn_history(case, ctx):
             return
 
 
+# ------------------------------------------------------------------------------------------------ size regime of the PATH / of the TARGETS
+
+# family -> sizes (see long_mesh; the first entry of each list is the one of the simplest example, which every run evaluates).
+# A count above 2**17 is also above 1e5, 2**16 and 2**15; the smaller sizes are there because they are cheaper, not because they add a regime.
+HUGE_SIZES = {"chain": [131100, 100010, 65600, 32800], "broom": [100010, 65600, 32800], "cycle": [65600, 32800],
+              "strip": [32800, 11000], "tube": [11000, 3500], "tetchain": [32800, 11000]}
+HUGE_FAMILIES = ["chain", "broom", "chain", "cycle", "chain", "strip", "tube", "tetchain"]
+HUGE_SIZE_INDEX = [0, 3, 3, 2, 3, 3, 1, 3]
+
+
+@st.composite
+def huge_case(draw):
+    """a RECIPE (realised by expand_huge inside fn_huge: the realised mesh has > 10**5 vertices and would be megabytes of JSON)"""
+    fam = draw(st.sampled_from(HUGE_FAMILIES))
+    idx = draw(st.sampled_from(HUGE_SIZE_INDEX))
+    seed = draw(st.integers(0, 10 ** 6))
+    if seed:
+        # Hypothesis' early examples stay close to the simplest one; the family and the size of every other example are uniform picks
+        r = random.Random(seed)
+        fam, idx = r.choice(HUGE_FAMILIES), r.choice(HUGE_SIZE_INDEX)
+    return {"recipe": "huge", "family": fam, "size": HUGE_SIZES[fam][min(idx, len(HUGE_SIZES[fam]) - 1)], "seed": seed}
+
+
+def expand_huge(rc):
+    """recipe -> a history case (mesh, two weight tables, representation choices, one query per entry point between the two
+    extremities of the mesh); a deterministic function of the recipe"""
+    rnd = random.Random(rc["seed"] * 7 + 3)
+    fam, L = rc["family"], int(rc["size"])
+    mesh, A, B = long_mesh(rnd, fam, L)
+    case = dict(mesh)
+    f = rnd.choice([1.0, 1.0, 1e-3, 1e3, 1e-6])
+    if f != 1.0:
+        case["V"] = [[x * f for x in v] for v in case["V"]]
+    case["tags"] = list(case["tags"]) + ["scale=%g" % f, "offset/size=0"]
+    E = ref_edges(case)
+    nE = len(E)
+    tabs, kinds = [], []
+    for t in range(2):
+        wk, ws = rnd.choice(WKINDS), rnd.choice([1.0, 1.0, 1.0, 1e-6, 1e6])
+        if fam == "tetchain" and t == 0:
+            # caller's weights that favour the spine (i, i+1): the unique shortest end-to-end path visits every vertex
+            W = [{1: 1.0, 2: 2.5, 3: 4.0}[b - a] * rnd.uniform(1.0, 1.1) for a, b in E]
+            wk = "spine"
+        else:
+            W = realise_weights(rnd, wk, nE)
+        tabs.append([w * ws for w in W])
+        kinds.append(wk + ("" if ws == 1.0 else "*%g" % ws))
+    case["Wt"], case["wkinds"] = tabs, kinds
+    case["intvals"] = rnd.random() < 0.5
+    n = len(case["V"])
+    case["idform"] = rnd.choice(["int", "int", "numpy", "np-int32"])
+    case["rowform"] = rnd.choice(["list", "list", "np-int64", "np-int32"])
+    case["intcoords"] = False
+    case["dvtype"] = rnd.choice([None, None, None, "float64", "int64", "int32", "uint16", "uint8"])
+    case["cfg"] = {"sort": rnd.random() < 0.5, "dupwarn": rnd.random() < 0.5}
+    case["decoy"] = None
+    cap = list(A)
+    if rnd.random() < 0.5:
+        A, B = B, A                               # which extremity the queries start from
+    if fam == "broom":
+        hub_side, leaves = (A, B) if len(A) < len(B) else (B, A)
+        starts = [hub_side[0], rnd.choice(leaves)]
+        pool = leaves
+    else:
+        starts, pool = A, B
+    steps = []
+
+    def query(entry, targets, tforms):
+        wmode = rnd.choice(WMODES)
+        return {"entry": entry, "m": 0, "wmode": wmode, "wtab": rnd.randrange(2), "export": rnd.choice(["omitted", "omitted", "omitted", False, False, True]),
+                "scramble": rnd.random() < 0.5, "start": rnd.choice(starts), "targets": targets, "tform": rnd.choice(tforms)}
+    if fam == "broom":
+        # very many targets: every leaf (and the handle) asked for in one point-to-point call / given as the vertex set
+        k = rnd.choice([len(pool), len(pool), len(pool) - rnd.randrange(1, 50)])
+        many = rnd.sample(pool, k)
+        steps.append(query("p2p", many + [0] * (rnd.random() < 0.5), ["list", "set", "tuple", "array", "iter"]))
+        many = rnd.sample(pool, k)
+        steps.append(query("set", many, ["list", "set", "tuple", "array", "iter"]))
+    else:
+        steps.append(query("p2p", [rnd.choice(pool) for _ in range(rnd.choice([1, 1, 2]))], ["int", "list", "set", "tuple", "array", "iter"]))
+        if steps[-1]["tform"] == "int":
+            steps[-1]["targets"] = steps[-1]["targets"][:1]
+        steps.append(query("set", rnd.sample(pool, min(len(pool), rnd.randint(2, 5))), ["list", "list", "set", "tuple", "array", "iter"]))
+        steps.append(query("set", [rnd.choice(pool)], ["list", "set", "array"]))
+        if fam == "tube":
+            # the border query starts at the capped end, whatever end the others start from
+            steps.append(query("border", [], ["border"]))
+            steps[-1]["start"] = rnd.choice(cap)
+    for q in steps:
+        if q["tform"] == "set":
+            q["targets"] = sorted(set(q["targets"]))
+    rnd.shuffle(steps)
+    case["steps"] = steps
+    return case
+
+
+def fn_huge(rc, ctx):
+    """queries whose shortest path visits more than 2**15 .. 2**17 vertices (or that ask for that many targets): p2p, vertex set
+    (several members / one member) and border on one mesh object, judged like any other history"""
+    case = expand_huge(rc)
+    ctx.label("huge:family=" + rc["family"], "huge:size=" + str(rc["size"]))
+    fn_history(case, ctx)
+
+
 def self_test():
     RG.self_test_c09()
     # the harness's own oracles on a hand-made instance
@@ -1294,6 +1768,29 @@ def self_test():
     assert RG.bellman_ford(3, wed, 0) == [0.0, 1.0, 2.0]
     assert close_w(2.0, 2.0 + 1e-12, 3.0) and not close_w(3.0, 2.0, 3.0) and close_w(0.0, 0.0, 0.0) and not close_w(1e-30, 0.0, 0.0)
     assert close_w(2e-6, 2e-6 * (1 + 1e-12), 3e-6) and not close_w(3e-6, 2e-6, 3e-6)
+    # the O(E log V) reference algorithms used above BIG vertices against the plain ones
+    rnd = random.Random(4711)
+    for _ in range(200):
+        n = rnd.randint(1, 9)
+        E = [(j, i) for i in range(n) for j in range(i) if rnd.random() < rnd.choice([0.2, 0.5])]
+        Wt = [(a, b, rnd.choice([0.0, 1.0, 1.0, 2.0, 0.5, rnd.uniform(0, 3)])) for a, b in E]
+        s0 = rnd.randrange(n)
+        assert dijkstra_ref(n, Wt, s0) == RG.bellman_ford(n, Wt, s0), (n, Wt, s0)
+        adj = RG.adjacency_lists(n, E)
+        br = bridges_of(n, adj)
+        assert br == set(key(*e) for e in E if RG.is_bridge(n, E, e)), (n, E)
+        fast = two_simple_paths_fast(n, adj, br, s0, list(range(n)))
+        assert all(fast[t] == RG.has_two_simple_paths(n, E, s0, t) for t in range(n)), (n, E, s0)
+    assert abbr(list(range(100)), 2) == "[0, 1, ... (100 entries) ..., 98, 99]" and size_bucket(999) is None and size_bucket(131073) == ">2^17"
+    # the long families: the extremities are as far apart as documented
+    for fam, L in (("chain", 40), ("cycle", 40), ("strip", 30), ("tube", 30), ("tetchain", 60)):
+        mesh, A, B = long_mesh(random.Random(5), fam, L)
+        E = ref_edges(mesh)
+        h = RG.bfs_hops(len(mesh["V"]), E, A[0])
+        assert all(x is not None for x in h) and h[B[0]] + 1 >= (L // 3 if fam == "tetchain" else L), (fam, h[B[0]])
+        if fam == "tube":
+            bv = set(SurfRef(len(mesh["V"]), mesh["F"]).border_vertices())
+            assert bv == set(B) and len(RG.partition(len(mesh["V"]), E)) == 1
 
 
 SUBCHECKS = [
@@ -1301,6 +1798,9 @@ SUBCHECKS = [
     SubCheck("vertex_set", query_case("set"), fn, quick=1300, thorough=4000),
     SubCheck("border", query_case("border"), fn, quick=800, thorough=2500),
     SubCheck("history", history_case(), fn_history, quick=1600, thorough=5000),
+    # size regime of the path / of the targets: seconds per case, hence a budget of its own (quick: the simplest example + one other,
+    # in one shard; thorough: two per shard)
+    SubCheck("huge_paths", huge_case(), fn_huge, quick=1, thorough=2, watchdog=(240, 600)),
 ]
 
 MATCHERS = {}
